@@ -134,7 +134,17 @@ def run_property(prop, tier, seed, repo=None, quiet=False):
         raise AnchorError("source does not parse: %s" % repo.parse_errors)
     mod = importlib.import_module("sa.props.%s" % prop.lower())
     ctx = Ctx(prop, repo, tier, seed)
-    mod.check(ctx)
+    try:
+        mod.check(ctx)
+    except AnchorError as ex:
+        # a later rule lost its anchor.  Violations already established by earlier rules stand on their own (each is a
+        # located construct); they are reported, and the incompleteness is noted.  With nothing established: exit 2 as ever.
+        known = {(k["property"], k["rule"], k["function"], norm(k["construct"])) for k in load_known()
+                 if k.get("status", "open") == "open"}
+        if not [v for v in ctx.violations if v.key() not in known]:
+            raise
+        ctx.incomplete = str(ex)
+        ctx.note("analysis incomplete: %s" % ex)
     return ctx, mod
 
 
@@ -208,6 +218,8 @@ def main(argv=None):
     wall = time.time() - t0
     if not a.no_evidence:
         write_evidence(ctx, mod, tier, seed, wall, new, listed, selftest)
+    if getattr(ctx, "incomplete", None):
+        print("ANALYSIS-INCOMPLETE property=%s the rules after this point could not be evaluated: %s" % (prop, ctx.incomplete))
     nob = len(ctx.obligations)
     print("%s tier=%s: %d rule-instance evaluations, %d obligations discharged, %d violation(s) "
           "(%d known), %d function(s), %.2fs" % (prop, tier, ctx.evaluations, nob,
